@@ -224,6 +224,20 @@ CLAIMED["C18"] = dict(
     technique="bounded run-time evaluation of the step contract on the compiled callable (no deductive obligations are possible for a run-time artefact)",
 )
 
+CLAIMED["C16"] = dict(
+    category="proof",
+    text=("Structural induction by contract on the real nested code objects: one recursion level of flatten_with_parent_keys, save_to_state_dict and "
+          "load_from_new_state_to_old_state is executed for every combination of child kinds (up to three children / two elements) with opaque keys and tensors and the "
+          "contract assumed at recursive calls: flat keys are dumps(parent ++ [key]) of the same leaf objects, sub-dictionaries are flattened under the extended prefix, "
+          "nothing is overwritten, leaf-less sub-dictionaries contribute nothing; unflatten builds the trie of decoded paths with the same leaves; state_dict stores "
+          "detached aliases, delegates to nested modules and recurses into dicts/lists/tuples; load copies in place returning the same tensor object and rebuilds "
+          "containers with the same objects. Holds for any string/integer keys under the assumed json contract (validated against CPython natively)."),
+    design_ref="DESIGN.md §4/C16",
+    note=("json contract assumed (dumps injective, loads inverse, key types kept) and validated natively; child-kind combinations enumerated (code iterates children uniformly); "
+          "whole-structure round trips bounded (exhaustive small trees over adversarial keys, seeded module graphs)"),
+    technique=E2 + "; recursion by contract on real nested code objects with opaque keys (structural induction)",
+)
+
 NOT_YET = "no check committed yet for this property (work in progress; see DESIGN.md for the planned contract)"
 
 
